@@ -198,6 +198,11 @@ def refgraph_prophy(defs, users):
     return '\n'.join(out) + '\n'
 
 
+# how an include names a file of the same directory; @DIR@ is replaced by the directory's own name when the files are
+# written (cycles must be recognised whatever the spelling, for relative and absolute main paths alike)
+SPELLINGS = ['', '', './', '../@DIR@/', './/', '../@DIR@/./']
+
+
 @st.composite
 def prophy_inputs(draw):
     """-> (label, {relative path: text}, main file)"""
@@ -235,10 +240,10 @@ def prophy_inputs(draw):
                              'enum E\n{\n    E_a = 2 %s (%d)\n};\n' % (op, a),
                              'const N = %d;\nstruct S\n{\n    u8 x[1 %s N];\n};\n' % (a, op)][form] + text
     elif kind == 'self_include':
-        files['m.prophy'] = '#include "m.prophy"\n' + text
+        files['m.prophy'] = '#include "%sm.prophy"\n' % draw(st.sampled_from(SPELLINGS)) + text
     elif kind == 'mutual_include':
-        files['m.prophy'] = '#include "n.prophy"\n' + text
-        files['n.prophy'] = '#include "m.prophy"\nconst NN = 1;\n'
+        files['m.prophy'] = '#include "%sn.prophy"\n' % draw(st.sampled_from(SPELLINGS)) + text
+        files['n.prophy'] = '#include "%sm.prophy"\nconst NN = 1;\n' % draw(st.sampled_from(SPELLINGS))
     elif kind == 'missing_include':
         files['m.prophy'] = '#include "nothere.prophy"\n' + text
     elif kind == 'refgraph':
@@ -298,6 +303,8 @@ ISAR_FRAGMENTS = [
     '<message name="M"><member name="x" type="u8"><dimension isVariableSize="true"/></member>'
     '<member name="y" type="u8"><dimension isVariableSize="true"/></member></message>',
     '<xi:include xmlns:xi="http://www.w3.org/2001/XInclude" href="m.xml"/>',
+    '<xi:include xmlns:xi="http://www.w3.org/2001/XInclude" href="./m.xml"/>',
+    '<xi:include xmlns:xi="http://www.w3.org/2001/XInclude" href="../@DIR@/m.xml"/>',
     '<xi:include xmlns:xi="http://www.w3.org/2001/XInclude" href="nothere.xml"/>',
     '<xi:include xmlns:xi="http://www.w3.org/2001/XInclude" href=""/>',
     '<struct name="S"><member name="a" type="u8"/><member name="a" type="u8"/></struct>',
@@ -380,7 +387,7 @@ def cases(draw):
 def build_args(work, isar, files, main, outs, extra, patch, missing_input):
     for fn, text in files.items():
         with open(os.path.join(work, fn), 'w', encoding='utf-8') as f:
-            f.write(text)
+            f.write(text.replace('@DIR@', os.path.basename(work)))
     out = os.path.join(work, 'out')
     os.makedirs(out, exist_ok=True)
     args = []
@@ -407,7 +414,15 @@ def check_case(isar, kind, files, main, outs, extra, patch, missing_input):
     work = pyh.fresh_dir('c13')
     try:
         args, out = build_args(work, isar, files, main, outs, extra, patch, missing_input)
-        res = run_main(args)
+        cwd = os.getcwd()
+        if len(files.get(main, '')) % 3 == 0 and args and args[-1] == os.path.join(work, main):
+            # a third of the cases name the main file relative to the working directory
+            os.chdir(work)
+            args[-1] = main
+        try:
+            res = run_main(args)
+        finally:
+            os.chdir(cwd)
         if res[0] == 'ok' and '--version' not in extra:
             stem = os.path.splitext(main)[0]
             for o in outs:
